@@ -878,6 +878,13 @@ class Translator:
     def cast(self, inst, pl, rv):
         op = rv.ops[0]
         ck = rv.cast_kind
+        if ck.startswith("IntToFloat") or ck.startswith("FloatToInt") or ck.startswith("FloatToFloat"):
+            dst = self.eval_place(inst, pl)
+            if dst.node.kind == "unit":
+                return
+            a = self.scalar(inst, op)
+            self.store(dst, VScalar(f"(({dst.node.ctype}){a.expr})", dst.node.ctype))
+            return
         if ck.startswith("IntToInt"):
             a = self.scalar(inst, op)
             dst = self.eval_place(inst, pl)
